@@ -124,6 +124,7 @@ type RunLine struct {
 	StateHash    string            `json:"state"`
 	Writes       int               `json:"writes"`
 	Hooks        int               `json:"hooks"`
+	Reqs         int               `json:"reqs"`
 	Faults       map[string]int    `json:"faults,omitempty"`
 	Probes       map[string]int    `json:"probes,omitempty"`
 	Known        map[string]int    `json:"known,omitempty"`
@@ -869,7 +870,7 @@ func writeEvidence(prop, tier string, seed uint64, lines []RunLine, tc tierCfg, 
 		l := &lines[i]
 		distinctLogs[l.LogHash] = true
 		states[l.StateHash] = true
-		if l.Writes > 0 || l.Hooks > 0 {
+		if l.Writes > 0 || l.Hooks > 0 || (prop == "C18" && l.Reqs > 0) {
 			nontrivial[l.LogHash] = true
 		}
 		steps += l.Steps
@@ -902,7 +903,7 @@ func writeEvidence(prop, tier string, seed uint64, lines []RunLine, tc tierCfg, 
 		"coverage": map[string]interface{}{
 			"evaluations":             len(lines),
 			"distinct_nontrivial":     len(nontrivial),
-			"rule":                    "one evaluation = one simulated run (seeded scenario + schedule + faults); distinct = distinct hash of the kernel event log (every decision, request signature, answer, watch frame) plus final store; non-trivial = metacontroller made at least one hook call or applied write in the run",
+			"rule":                    "one evaluation = one simulated run (seeded scenario + schedule + faults); distinct = distinct hash of the kernel event log (every decision, request signature, answer, watch frame) plus final store; non-trivial = metacontroller made at least one hook call or applied write in the run (C18, whose system under test is the informer factory alone: at least one LIST/WATCH request)",
 			"samples":                 samples,
 			"distinct_event_logs":     len(distinctLogs),
 			"distinct_final_states":   len(states),
